@@ -133,6 +133,10 @@ def gen_cases(tier, seed):
                 if h["kind"] == "ttensor":
                     yield dict({"check": "reconstruct", "h": h}, **fam)
             yield {"check": "norm_inner", "h": h, "dts": list(dts)}
+            if h["kind"] in ("ktensor", "ttensor"):
+                # factor matrices with unit-length but correlated columns (what normalize() leaves behind): the norm is
+                # not the norm of the weights / of the core
+                yield {"check": "norm_inner", "h": dict(h, fnorm="unit"), "partner": "none"}
             if h["kind"] in ("tensor", "sptensor", "ktensor"):
                 yield {"check": "mask", "h": h}
     # tensor times tensor: pairs of small dense tensors, each in every storage dtype, second operand in every value family
@@ -431,7 +435,7 @@ def _run_norm_inner(case, ctx):
     A = H.ref_array(hd)
     kind = hd["kind"]
     ctx.state()
-    if "partner" not in case and kind != "sumtensor":
+    if case.get("partner") in (None, "none") and kind != "sumtensor":
         p = Probe(ctx, dict(case, partner="none"))
         X = H.build(hd)
         ok, res = p.call(kind + ".norm", lambda: X.norm())
